@@ -6,10 +6,14 @@
     c13:diags-sorted   the same, sorted (random programs)
     c13:frame/…        the variant without the suppression travels in the projection name; the Rust side compiles both and
                        compares everything but levels and the attribute itself; expected `frame-ok changed=k errors=n`
-  stream `C13cli` (procrun/c13_dup.py, real binary): clap's acceptance of `--allow` spellings, DuplicateFile, D-13b.
+  stream `C13cli` (procrun/c13_dup.py, real binary): clap's acceptance of `--allow` spellings, DuplicateFile, accepted spellings in any letter case name their lint.
 
-  Families `known-d13a` / `known-d13b` carry the expectation the PROPERTY demands (`demandedLevel`); the same input is
-  also emitted with the expectation of the code's mirror (`lintDiags`) in the ordinary family, which must match.
+  Every case of the ordinary families carries the expectation of the code's mirror (`lintDiags`), which must match.
+  Where the level the PROPERTY demands (`demandedLevel`) differs from the mirror, the same input is emitted once more
+  with the demanded expectation: in family `known-d13c` when the recorded scope key is shared by two elements
+  (`scopeKeyUnique` fails — the open finding D-13c), in family `demanded` otherwise (nothing is expected there; a line
+  in it is a new deviation from the property and shows up as a DIFF). `regress-d13a`: the inputs of the former finding
+  D-13a (repaired by 7283de9) with the demanded expectation.
 -/
 import SlicecVerif.Model.Lints
 import SlicecVerif.Drv.Prog
@@ -121,6 +125,7 @@ structure Tmpl where
 
 def tr (id : String) : TRef := .mk [] (.named id) false
 def tb : TRef := .mk [] (.prim .bool) false
+def ts : TRef := .mk [] (.prim .string) false
 def fld (name : String) (ty : TRef) (doc : List String := []) : Field := { doc := doc, attrs := [], tag := none, name := name, ty := ty }
 def prm (name : String) (ty : TRef) : Param := { attrs := [], tag := none, name := name, stream := false, ty := ty }
 def opr (name : String) (ps : List Param) (ret : Ret) (doc : List String := []) : Op :=
@@ -148,6 +153,40 @@ def templates : List Tmpl := [
     "M::I::op::p", ["M::I::op", "M::I"], "M::I::op2"⟩,
   ⟨"dep-alias-target", mk2 [.alias [] [dep] "DT" tb, .struct [] [] false "S" [fld "f" (tr "DT"), fld "g" tb]], "M::S::f", ["M::S"], "M::S::g"⟩,
   ⟨"dep-enum-custom", mk2 [.custom [] [dep] "DC", .struct [] [] false "S" [fld "f" (tr "DC"), fld "g" tb]], "M::S::f", ["M::S"], "M::S::g"⟩,
+  -- references nested in anonymous types belong to the member whose type they are written in
+  ⟨"dep-nested-field", mk2 [depStruct, .struct [] [] false "S" [fld "g" tb, fld "h" (.mk [] (.seq (.mk [] (.dict ts (tr "Dep")) false)) false)]],
+    "M::S::h", ["M::S"], "M::S::g"⟩,
+  ⟨"dep-result-field", mk2 [depStruct, .struct [] [] false "S" [fld "f" (.mk [] (.result (tr "Dep") (.mk [] (.seq (tr "Dep")) true)) false), fld "g" tb]],
+    "M::S::f", ["M::S"], "M::S::g"⟩,
+  ⟨"dep-nested-param", mk2 [depStruct, .iface [] [] "I" [] [opr "op" [prm "q" tb, prm "p" (.mk [] (.seq (.mk [] (.seq (tr "Dep")) false)) false)] (.single none false tb), opr "op2" [] .none]],
+    "M::I::op::p", ["M::I::op", "M::I"], "M::I::op::q"⟩,
+  ⟨"dep-nested-return", mk2 [depStruct, .iface [] [] "I" [] [opr "op" [prm "p" tb] (.tuple [prm "s" tb, prm "r" (.mk [] (.dict ts (.mk [] (.seq (tr "Dep")) false)) false)])]],
+    "M::I::op::r", ["M::I::op", "M::I"], "M::I::op::p"⟩,
+  ⟨"dep-nested-enumerator-field", mk2 [depStruct, .enum [] [] false false "E" none
+      [{ doc := [], attrs := [], name := "A", fields := some [fld "g" tb, fld "f" (.mk [] (.seq (tr "Dep")) true)], value := none }, { doc := [], attrs := [], name := "B", fields := none, value := none }]],
+    "M::E::A::f", ["M::E::A", "M::E"], "M::E::A::g"⟩,
+  ⟨"dep-nested-alias", mk2 [depStruct, .alias [] [] "T" (.mk [] (.dict ts (.mk [] (.seq (tr "Dep")) false)) false), sib], "M::T", [], "M::Sib"⟩,
+  ⟨"dep-alias-of-alias", mk2 [.alias [] [dep] "DT" tb, .alias [] [] "T" (tr "DT"), sib], "M::T", [], "M::Sib"⟩,
+  -- a single unnamed return type is written in the operation's scope: the operation is the innermost element that can carry the attribute
+  ⟨"dep-nested-single-return", mk2 [depStruct, .iface [] [] "I" [] [opr "op" [prm "q" tb] (.single none false (.mk [] (.seq (tr "Dep")) false)), opr "op2" [] .none]],
+    "M::I::op", ["M::I"], "M::I::op::q"⟩,
+  -- the same scope as before: bases and underlying types are written after the ContainerIdentifier of their definition
+  ⟨"dep-two-bases", mk2 [.iface [] [dep] "DepI" [] [], .iface [] [] "J" [] [], .iface [] [] "I" [tr "J", tr "::M::DepI"] [opr "op" [] .none]], "M::I", [], "M::I::op"⟩,
+  ⟨"dep-underlying", mk2 [.alias [] [dep] "DU" (.mk [] (.prim .uint8) false), .enum [] [] false false "E" (some (tr "DU"))
+      [{ doc := [], attrs := [], name := "A", fields := none, value := none }], sib], "M::E", [], "M::E::A"⟩,
+  -- names that repeat along the scope chain, a keyword as a member name, an enumerator named like a field of another one
+  ⟨"dep-names-struct", mk2 [depStruct, .struct [] [] false "N" [fld "N" (tr "Dep"), fld "bool" (.mk [] (.seq (tr "Dep")) false)]], "M::N::N", ["M::N"], "M::N::bool"⟩,
+  ⟨"dep-names-enum", mk2 [depStruct, .enum [] [] false false "E" none
+      [{ doc := [], attrs := [], name := "A", fields := some [fld "A" (tr "Dep"), fld "x" (tr "Dep")], value := none },
+       { doc := [], attrs := [], name := "x", fields := none, value := none },
+       { doc := [], attrs := [], name := "B", fields := some [fld "x" (tr "Dep")], value := none }]],
+    "M::E::A::A", ["M::E::A", "M::E"], "M::E::x"⟩,
+  ⟨"dep-names-op", mk2 [depStruct, .iface [] [] "I" [] [opr "I" [prm "I" (tr "Dep"), { prm "op" (tr "Dep") with stream := true }] .none]],
+    "M::I::I::I", ["M::I::I", "M::I"], "M::I::I::op"⟩,
+  -- two members of one container, both deprecated: the attribute on one must not silence the other
+  ⟨"dep-two-fields", mk2 [depStruct, .struct [] [] false "S" [fld "f" (tr "Dep"), fld "g" (.mk [] (.seq (tr "Dep")) false)]], "M::S::f", ["M::S"], "M::S::g"⟩,
+  ⟨"dep-param-and-return", mk2 [depStruct, .iface [] [] "I" [] [opr "op" [prm "p" (tr "Dep")] (.tuple [prm "r" (tr "Dep"), prm "s" tb])]],
+    "M::I::op::p", ["M::I::op", "M::I"], "M::I::op::r"⟩,
   -- BrokenDocLink
   ⟨"link-struct", mk2 [.struct [" See {@link Missing} here."] [] false "S" [fld "g" tb], sib], "M::S", [], "M::Sib"⟩,
   ⟨"see-field", mk2 [.struct [] [] false "S" [fld "f" tb [" A field.", " @see Missing"], fld "g" tb]], "M::S::f", ["M::S"], "M::S::g"⟩,
@@ -217,9 +256,13 @@ def emitCombo (o : Out) (t : Tmpl) (pl : Place) (args : List String) : IO Unit :
   let entryArgs := match pl with | .cli => "-" | _ => ",".intercalate args
   o.line (compileCase "frame" ("c13:frame/-/" ++ filesField baseTexts ++ "/" ++ entryArgs) opts r.texts
     ("frame-ok changed=" ++ toString k ++ " errors=0"))
+  -- the inputs of the former D-13a: the suppression sits on the member / alias whose own type is deprecated
+  let isSelf := match pl with | .self => true | _ => false
+  if isSelf && (kindsOf t.prog).headD "" == "Deprecated" && demanded != mirrorLevels [] t.prog then
+    o.line (compileCase "regress-d13a" "c13:diags" opts r.texts (joinEntries (expectedWith r p demanded)))
   if mirror != demanded then
-    let known := match pl with | .cli => "known-d13b" | _ => "known-d13a"
-    o.line (compileCase known "c13:diags" opts r.texts (joinEntries (expectedWith r p demanded)))
+    let fam := if (lintSites p).all (scopeKeyUnique p) then "demanded" else "known-d13c"
+    o.line (compileCase fam "c13:diags" opts r.texts (joinEntries (expectedWith r p demanded)))
 
 def attrArgSets (k : String) : List (List String) :=
   let others := lintNames.filter (· != k)
@@ -236,6 +279,9 @@ def genTemplates (o : Out) : IO Unit := do
     let k := (kindsOf t.prog).headD "Deprecated"
     let r := renderProg 0 0 t.prog
     o.line (compileCase "tmpl-none" "c13:diags" ("D=c13." ++ t.name) r.texts (joinEntries (expectedWith r t.prog (mirrorLevels [] t.prog))))
+    -- the D-13c exclusion must not swallow anything here: every recorded scope key names one element
+    if !((lintSites t.prog).all (scopeKeyUnique t.prog)) then
+      o.line (tab ["K", "C13", "shared-key", "template " ++ t.name ++ ": a recorded scope key is shared by two elements"])
     for args in cliArgSets k do emitCombo o t .cli args
     for pl in [Place.file, .self, .sibling, .otherFile] ++ t.enclosing.map Place.encl do
       for args in attrArgSets k do emitCombo o t pl args
@@ -272,7 +318,7 @@ def genErrors (o : Out) : IO Unit := do
     emit ("badarg-file-" ++ bad) [] (file0 [⟨"allow", [bad]⟩] [depStruct, .struct [] [] false "S" [fld "f" (tr "Dep")]]) none [errorEntry 0] ""
   emit "noargs" [] (file0 [] [depStruct, .struct [] [⟨"allow", []⟩] false "S" [fld "f" (tr "Dep")]]) none [errorEntry 0] ""
   -- `allow` where it cannot be applied (module, type reference): reported during validation, the lint stays a warning
-  let depEntry (r : Rendered) (path : String) (l : Level) := "Deprecated/" ++ l.str ++ "/" ++ spanOf (r.spans.getD 0 []) path ++ "@string-0/" ++ hs "M::S"
+  let depEntry (r : Rendered) (path : String) (l : Level) := "Deprecated/" ++ l.str ++ "/" ++ spanOf (r.spans.getD 0 []) path ++ "@string-0/" ++ hs (memberTypeScope "M::S" "f")
   let pMod : Program := [{ fileAttrs := [], module := some ⟨[all], "M"⟩, defs := [depStruct, .struct [] [] false "S" [fld "f" (tr "Dep")]] }]
   emit "allow-on-module" [] pMod none [depEntry (renderProg 0 0 pMod) "d1.f0.t" .warning, errorEntry 0] ""
   let pRef := file0 [] [depStruct, .struct [] [] false "S" [fld "f" (.mk [all] (.named "Dep") false)]]
@@ -369,6 +415,12 @@ def genRandom (tier : Tier) (seed : Nat) (o : Out) : IO Unit := do
     let rd := renderProg (i % 3) (seed * 1000 + i) p
     let expected := joinEntries (sortStrings (expectedWith rd p (mirrorLevels cli p)))
     o.line (compileCase "random" "c13:diags-sorted" (optsOf cli) rd.texts expected)
+    if !((lintSites p).all (scopeKeyUnique p)) then
+      o.line (tab ["K", "C13", "shared-key", "random program " ++ toString i ++ ": a recorded scope key is shared by two elements (generated names are unique)"])
+    -- the level the property demands, whenever the mirror deviates from it (never, unless two elements share a key)
+    if mirrorLevels cli p != demandedLevels cli p then
+      let fam := if (lintSites p).all (scopeKeyUnique p) then "demanded" else "known-d13c"
+      o.line (compileCase fam "c13:diags-sorted" (optsOf cli) rd.texts (joinEntries (sortStrings (expectedWith rd p (demandedLevels cli p)))))
     -- frame on the random program: the same program with every `allow` attribute removed … is not "one attribute";
     -- instead add one more attribute at the file and compare (k from the model)
     if i % 4 == 0 then
@@ -380,20 +432,61 @@ def genRandom (tier : Tier) (seed : Nat) (o : Out) : IO Unit := do
       o.line (compileCase "frame-random" ("c13:frame/" ++ optsOf cli ++ "/" ++ filesField rb.texts ++ "/" ++ ",".intercalate args) (optsOf cli) rd'.texts
         ("frame-ok changed=" ++ toString k ++ " errors=0"))
 
+/-! ### D-13c: a parameter and a return member of one operation with the same name share their scope key -/
+
+def prmA (attrs : List Attr) (name : String) (ty : TRef) : Param := { attrs := attrs, tag := none, name := name, stream := false, ty := ty }
+
+/-- operations in which the lookup key of a parameter's scope is (or is not) shared with a return member -/
+def d13cOps (a : Attr) : List (String × Op) :=
+  let sq := TRef.mk [] (.seq (tr "Dep")) false
+  [("param-allow-ignored", opr "op" [prmA [a] "a" (tr "Dep")] (.tuple [prm "a" (tr "Dep"), prm "b" tb])),
+   ("return-allow-leaks", opr "op" [prm "a" (tr "Dep")] (.tuple [prmA [a] "a" (tr "Dep"), prm "b" tb])),
+   ("return-allow-leaks-onto-clean-return", opr "op" [prm "a" (tr "Dep")] (.tuple [prmA [a] "a" tb, prm "b" (tr "Dep")])),
+   ("nested", opr "op" [prm "x" tb, prmA [a] "a" sq] (.tuple [prm "b" (tr "Dep"), prm "a" (.mk [] (.dict ts (tr "Dep")) false)])),
+   ("both-allow", opr "op" [prmA [a] "a" (tr "Dep")] (.tuple [prmA [a] "a" (tr "Dep"), prm "b" tb])),
+   ("param-named-returnValue", opr "op" [prmA [a] "returnValue" (tr "Dep")] (.single none false tb)),
+   ("param-named-returnValue-dep-return", opr "op" [prmA [a] "returnValue" tb] (.single none false (tr "Dep"))),
+   ("param-named-returnValue-both", opr "op" [prmA [a] "returnValue" (tr "Dep")] (.single none false (tr "Dep"))),
+   -- not D-13c: different names / the attribute on the operation
+   ("distinct-names", opr "op" [prmA [a] "a" (tr "Dep")] (.tuple [prm "c" (tr "Dep"), prm "b" tb])),
+   ("on-operation", { opr "op" [prm "a" (tr "Dep")] (.tuple [prm "a" (tr "Dep"), prm "b" tb]) with attrs := [a] })]
+
+def genD13c (o : Out) : IO Unit := do
+  for args in [["Deprecated"], ["All"], ["BrokenDocLink"], ["IncorrectDocComment", "Deprecated"]] do
+    for (nm, op) in d13cOps ⟨"allow", args⟩ do
+      let p := mk2 [depStruct, .iface [] [] "I" [] [op, opr "op2" [] .none]]
+      let r := renderProg 0 0 p
+      let opts := "D=c13.d13c." ++ nm ++ ":" ++ ",".intercalate args
+      let mirror := mirrorLevels [] p
+      let demanded := demandedLevels [] p
+      o.line (compileCase "d13c" "c13:diags" opts r.texts (joinEntries (expectedWith r p mirror)))
+      if mirror != demanded then
+        let fam := if (lintSites p).all (scopeKeyUnique p) then "demanded" else "known-d13c"
+        o.line (compileCase fam "c13:diags" opts r.texts (joinEntries (expectedWith r p demanded)))
+
 /-- the witness sites quoted in Props/C13.lean are what `lintSites` computes (a `K` line = model-level failure) -/
 def checkWitnesses (o : Out) : IO Unit := do
   if !(lintSites d13aProgram == [d13aSite]) then
     o.line (tab ["K", "C13", "d13a-witness", "lintSites d13aProgram is not [d13aSite]"])
   if !(lintSites d13bProgram == [d13bSite]) then
     o.line (tab ["K", "C13", "d13b-witness", "lintSites d13bProgram is not [d13bSite]"])
+  if !((lintSites d13cProgram).head? == some d13cSite) then
+    o.line (tab ["K", "C13", "d13c-witness", "the first lint site of d13cProgram is not d13cSite"])
+  if !((lintSites d13cProgram2).head? == some d13cSite2) then
+    o.line (tab ["K", "C13", "d13c-witness2", "the first lint site of d13cProgram2 is not d13cSite2"])
   -- and the real compiler records the same (mirror expectation, must match)
-  for (p, nm) in [(d13aProgram, "witness-d13a"), (d13bProgram, "witness-d13b")] do
+  for (p, nm) in [(d13aProgram, "witness-d13a"), (d13bProgram, "witness-d13b"), (d13cProgram, "witness-d13c"), (d13cProgram2, "witness-d13c2")] do
     let r := renderProg 0 0 p
     o.line (compileCase "witness" "c13:diags" ("D=c13." ++ nm) r.texts (joinEntries (expectedWith r p (mirrorLevels [] p))))
+  -- the D-13c witnesses with the level the property demands
+  for (p, nm) in [(d13cProgram, "witness-d13c"), (d13cProgram2, "witness-d13c2")] do
+    let r := renderProg 0 0 p
+    o.line (compileCase "known-d13c" "c13:diags" ("D=c13." ++ nm) r.texts (joinEntries (expectedWith r p (demandedLevels [] p))))
 
 def genC13 (tier : Tier) (seed : Nat) (o : Out) : IO Unit := do
   checkWitnesses o
   genTemplates o
+  genD13c o
   genErrors o
   genRandom tier seed o
 
@@ -430,6 +523,6 @@ def genC13cli (_tier : Tier) (_seed : Nat) (o : Out) : IO Unit := do
         -- what the property demands: an accepted value names its lint whatever its letter case
         let demanded := ds.map fun d => if namedByCli vs d.code then { d with level := Level.allowed } else (updateOne { env with cli := stored } d)
         if demanded != mirror then
-          o.line (cliCase "known-d13b" scenario vs ("exit=" ++ (if exitFails demanded then "1" else "0") ++ " diags=" ++ emittedOf demanded))
+          o.line (cliCase "demanded" scenario vs ("exit=" ++ (if exitFails demanded then "1" else "0") ++ " diags=" ++ emittedOf demanded))
 
 end Slicec.Drv
